@@ -1,9 +1,9 @@
 CONSTANTS
-  NS = 3
+  NS = 2
   TRIES = 2
   ROTATE = 1
   NSU = 3
-  EDITS = 0
+  EDITS = 2
 SPECIFICATION MSpec
 INVARIANTS Paid OnMember Budget TryBound CookieBound ChoiceExists WaitSound
 PROPERTY Terminates
